@@ -548,9 +548,30 @@ Proof.
     destruct (run_closing q s1 beh n1) as [[s2 e2] n2]. exact Y.
 Qed.
 
-Lemma R4_timer_fire ext extc hole s c : R4 (c :: ext) extc hole s -> R4 ext extc hole (timer_fire s c).
+Lemma R4_close_timer_ext ext extc hole s c :
+  R4 (c :: ext) extc hole s -> R4 ext extc hole (close_timer s c).
 Proof.
-  intros (N & C & I & G). unfold timer_fire.
+  intros (N & C & I & G).
+  split; [exact N|]. split.
+  - intros h c' I'. rewrite freed_close_timer. apply (C h c' I').
+  - split.
+    + intros c' [L F]. rewrite close_timer_len in L. rewrite freed_close_timer in F.
+      unfold J. cbn [close_timer closingq set_closingq inflight done].
+      destruct (Nat.eq_dec c c') as [->|Ne]; [right; right; right; left; left; reflexivity|].
+      destruct (I c' (conj L F)) as [X|[X|[X|[X|[X|[X|X]]]]]]; auto 10.
+      * destruct X as [X|X]; [congruence|auto 10].
+      * right; right; right; left. right. exact X.
+      * right; right; right; right; right; left. unfold armed in *.
+        change (getc (close_timer s c) c') with (getc (upd_c s c (c_set_timer TClosing)) c').
+        rewrite getc_upd_c. destruct (Nat.eqb_spec c c'); [congruence|]. exact X.
+    + intros h P. destruct (G h P) as [X|X]; [left; right; exact X|right; exact X].
+Qed.
+
+Lemma R4_timer_fire fx ext extc hole s c : R4 (c :: ext) extc hole s -> R4 ext extc hole (timer_fire fx s c).
+Proof.
+  intros H. unfold timer_fire.
+  destruct (fx && _); [apply R4_close_timer_ext; exact H|].
+  destruct H as (N & C & I & G).
   set (f := fun x => c_set_inflight true (c_set_start (now s) (c_set_timer TIdle x))).
   set (s1 := upd_c s c f).
   assert (Gf : forall c', c_freed (getc s1 c') = c_freed (getc s c')).
@@ -602,9 +623,11 @@ Definition ctxs_of (l : list ritem) : list nat :=
 Lemma R_collect s items : R [] [] None s -> R (ctxs_of items) [] None (collect s items).
 Proof.
   intros [S H]. split.
-  - apply (collect_inv SI); auto.
-    + intros s0 c H0. apply SI_upd_c; auto. cbn. discriminate.
-    + intros s0 l H0. eapply SI_same; [| |exact H0]; reflexivity.
+  - assert (P1 : forall s0 c, SI s0 -> SI (upd_c s0 c (c_set_timer TReady))).
+    { intros s0 c H0. apply SI_upd_c; auto. cbn. discriminate. }
+    assert (P2 : forall s0 l, SI s0 -> SI (set_ut s0 l)).
+    { intros s0 l H0. eapply SI_same; [| |exact H0]; reflexivity. }
+    exact (collect_inv SI P1 P2 items s S).
   - unfold collect.
     assert (X : forall l s0 ext, R4 ext [] None s0 ->
               R4 (rev (ctxs_of l) ++ ext) [] None
@@ -612,10 +635,9 @@ Proof.
                                           | RCtx c => upd_c s c (c_set_timer TReady)
                                           | RUser _ => s end) l s0)).
     { induction l as [|[c|id] l IH]; intros s0 ext H0; cbn [fold_left ctxs_of flat_map rev app]; auto.
-      - pose proof (IH _ _ (R4_ready ext [] None s0 c H0)) as Y.
-        eapply R4_ext_incl; [|exact Y]. intros c' I. fold (ctxs_of l) in *.
-        rewrite !in_app_iff in *. cbn in *. rewrite in_app_iff. cbn. tauto.
-      - apply IH. exact H0. }
+      pose proof (IH _ _ (R4_ready ext [] None s0 c H0)) as Y.
+      eapply R4_ext_incl; [|exact Y]. intros c' I.
+      rewrite <- app_assoc. exact I. }
     pose proof (X items s [] H) as Y. rewrite app_nil_r in Y.
     assert (Z : R4 (ctxs_of items) [] None
                    (fold_left (fun s it => match it with
@@ -626,17 +648,17 @@ Proof.
 Qed.
 
 Lemma R_fire beh l : forall s cnt,
-  R (ctxs_of l) [] None s -> R [] [] None (fst (fst (fire_ready beh l s cnt))).
+  R (ctxs_of l) [] None s -> R [] [] None (fst (fst (fire_ready true beh l s cnt))).
 Proof.
   induction l as [|[c|id] l IH]; intros s cnt H; cbn [fire_ready]; auto.
   - apply IH. destruct H as [S H]. split; [apply SI_timer_fire; auto|].
     apply R4_timer_fire. exact H.
   - pose proof (R_apis (ctxs_of l) [] None (beh cnt) s H) as X.
     destruct (apis s (beh cnt)) as [s1 e1]. cbn [fst] in X.
-    pose proof (IH s1 (S cnt) X) as Y. destruct (fire_ready beh l s1 (S cnt)) as [[s2 e2] n2]. exact Y.
+    pose proof (IH s1 (S cnt) X) as Y. destruct (fire_ready true beh l s1 (S cnt)) as [[s2 e2] n2]. exact Y.
 Qed.
 
-Lemma R_run_timers beh s cnt : R [] [] None s -> R [] [] None (fst (fst (run_timers beh s cnt))).
+Lemma R_run_timers beh s cnt : R [] [] None s -> R [] [] None (fst (fst (run_timers true beh s cnt))).
 Proof.
   intros H. unfold run_timers. apply R_fire. apply R_collect. exact H.
 Qed.
@@ -669,8 +691,11 @@ Proof.
     - intros h P. destruct (G h P) as [Y|Y]; auto. }
   pose proof (R_run_closing [] (closingq s1) _ beh n1 H1) as Y.
   destruct (run_closing (closingq s1) (set_closingq s1 []) beh n1) as [[s2 e2] n2]. cbn [fst] in *.
-  apply R_run_timers. destruct Y as [S Y]. split; [eapply SI_same; [| |exact S]; reflexivity|].
-  eapply R4_same; [| | | | |exact Y]; reflexivity.
+  assert (H2 : R [] [] None (set_now s2 (clock s2))).
+  { destruct Y as [S Y]. split; [eapply SI_same; [| |exact S]; reflexivity|].
+    eapply R4_same; [| | | | |exact Y]; reflexivity. }
+  pose proof (R_run_timers beh _ n2 H2) as Z.
+  destruct (run_timers true beh (set_now s2 (clock s2)) n2) as [[s3 e3] n3]. exact Z.
 Qed.
 
 Lemma R_drain fuel : forall s res beh cnt,
@@ -712,8 +737,13 @@ Proof.
   - pose proof (R_iteration s beh cnt H) as X.
     destruct (iteration true s beh cnt) as [[s1 e1] n1]. cbn [fst] in X.
     pose proof (IH s1 beh n1 X) as Y. destruct (run true s1 os beh n1); exact Y.
-  - pose proof (R_drain drain_fuel s res beh cnt H) as X.
-    destruct (drain true drain_fuel s res beh cnt) as [[s1 e1] n1]. cbn [fst] in X.
+  - apply IH. destruct H as [S H]. split; [eapply SI_same; [| |exact S]; reflexivity|].
+    eapply R4_same; [| | | | |exact H]; reflexivity.
+  - assert (H' : R [] [] None (set_ut s [])).
+    { destruct H as [S H]. split; [eapply SI_same; [| |exact S]; reflexivity|].
+      eapply R4_same; [| | | | |exact H]; reflexivity. }
+    pose proof (R_drain drain_fuel _ res beh cnt H') as X.
+    destruct (drain true drain_fuel (set_ut s []) res beh cnt) as [[s1 e1] n1]. cbn [fst] in X.
     pose proof (IH s1 beh n1 X) as Y. destruct (run true s1 os beh n1); exact Y.
 Qed.
 
@@ -762,14 +792,14 @@ Definition Fr (s s' : st) : Prop :=
   (forall h, h_closing (geth s' h) = h_closing (geth s h) /\ h_active (geth s' h) = h_active (geth s h)) /\
   length (hs s') = length (hs s) /\ length (cs s') = length (cs s) /\
   (forall c, c_freed (getc s c) = true -> c_freed (getc s' c) = true) /\
-  inflight s' = inflight s /\ done s' = done s.
+  inflight s' = inflight s /\ done s' = done s /\ ut s' = ut s.
 
 Lemma Fr_refl s : Fr s s.
 Proof. repeat split; auto. Qed.
 
 Lemma Fr_trans a b c : Fr a b -> Fr b c -> Fr a c.
 Proof.
-  intros (A1 & A2 & A3 & A4 & A5 & A6) (B1 & B2 & B3 & B4 & B5 & B6).
+  intros (A1 & A2 & A3 & A4 & A5 & A6 & A7) (B1 & B2 & B3 & B4 & B5 & B6 & B7).
   split; [|repeat split; try congruence; auto].
   intros h. destruct (A1 h), (B1 h). split; congruence.
 Qed.
@@ -783,7 +813,7 @@ Lemma Fr_close_clear s c : Fr s (close_timer (upd_c s c (c_set_inflight false)) 
 Proof.
   split; [intros h; split; reflexivity|]. split; [reflexivity|].
   split; [rewrite close_timer_len, len_cs_upd_c; reflexivity|].
-  split; [|split; reflexivity].
+  split; [|repeat split; reflexivity].
   intros c' F. rewrite freed_close_timer, getc_upd_c.
   destruct (Nat.eqb c c' && Nat.ltb c (length (cs s))); auto.
 Qed.
@@ -821,13 +851,13 @@ Proof.
   unfold timer_close_cb.
   set (h := c_parent (getc s c)). set (s0 := set_hq s (remove_nat c (hq s))).
   assert (K : forall X : st,
-     cs X = cs s -> inflight X = inflight s -> done X = done s -> length (hs X) = length (hs s) ->
+     ut X = ut s -> cs X = cs s -> inflight X = inflight s -> done X = done s -> length (hs X) = length (hs s) ->
      (forall h', h_closing (geth X h') = h_closing (geth s h') /\ h_active (geth X h') = h_active (geth s h')) ->
      Fr s (upd_c X c c_set_freed) /\
      ((c < length (cs s))%nat -> c_freed (getc (upd_c X c c_set_freed) c) = true)).
-  { intros X Ec Ei Ed El Eh. split.
+  { intros X Eu Ec Ei Ed El Eh. split.
     - split; [exact Eh|]. split; [exact El|]. split; [rewrite len_cs_upd_c, Ec; reflexivity|].
-      split; [|split; auto].
+      split; [|repeat split; auto].
       intros c' F. rewrite getc_upd_c. destruct (Nat.eqb c c' && Nat.ltb c (length (cs X))); auto.
       unfold getc. rewrite Ec. exact F.
     - intros L. rewrite getc_upd_c, Nat.eqb_refl, Ec.
@@ -841,20 +871,20 @@ Proof.
   assert (U0 : forall h', h_closing (geth s0 h') = h_closing (geth s h') /\
                           h_active (geth s0 h') = h_active (geth s h')) by (intros; split; reflexivity).
   destruct (h_chain (geth s h)) as [|c0 rest].
-  - apply K; [reflexivity|reflexivity|reflexivity|reflexivity|exact U0].
+  - apply K; [reflexivity|reflexivity|reflexivity|reflexivity|reflexivity|exact U0].
   - destruct (Nat.eqb c0 c).
     + destruct rest as [|r1 rest'].
       * destruct (h_closing (geth (upd_h s0 h (h_set_chain [])) h)).
-        -- apply K; [reflexivity|reflexivity|reflexivity| |].
+        -- apply K; [reflexivity|reflexivity|reflexivity|reflexivity| |].
            ++ cbn [hs set_closingq upd_h set_hs]. rewrite upd_length. reflexivity.
            ++ apply (Uh (h_set_chain [])). intros x; split; reflexivity.
-        -- apply K; [reflexivity|reflexivity|reflexivity| |].
+        -- apply K; [reflexivity|reflexivity|reflexivity|reflexivity| |].
            ++ cbn [hs upd_h set_hs]. rewrite upd_length. reflexivity.
            ++ apply (Uh (h_set_chain [])). intros x; split; reflexivity.
-      * apply K; [reflexivity|reflexivity|reflexivity| |].
+      * apply K; [reflexivity|reflexivity|reflexivity|reflexivity| |].
         -- cbn [hs upd_h set_hs]. rewrite upd_length. reflexivity.
         -- apply (Uh (h_set_chain (r1 :: rest'))). intros x; split; reflexivity.
-    + apply K; [reflexivity|reflexivity|reflexivity| |].
+    + apply K; [reflexivity|reflexivity|reflexivity|reflexivity| |].
       * cbn [hs upd_h set_hs]. rewrite upd_length. reflexivity.
       * apply (Uh (h_set_chain (c0 :: remove_nat c rest))). intros x; split; reflexivity.
 Qed.
@@ -898,9 +928,11 @@ Proof.
   destruct (c_timer x); try reflexivity. cbn in Fx. discriminate.
 Qed.
 
-Lemma run_timers_none s : (forall c, ~ armed s c) -> run_timers s = s.
+Lemma run_timers_none fx beh s cnt :
+  (forall c, ~ armed s c) -> ut s = [] -> run_timers fx beh s cnt = (s, [], cnt).
 Proof.
-  intros NA. unfold run_timers. rewrite due_from_none; [reflexivity|].
+  intros NA U. unfold run_timers, due_items. rewrite U. cbn [fold_right].
+  rewrite due_from_none; [reflexivity|].
   apply Forall_forall. intros x I. destruct (In_nth _ _ dflt_ctx I) as (n & L & E).
   specialize (NA n). unfold armed, getc in NA. rewrite E in NA.
   destruct (timer_active (c_timer x)); auto. exfalso; auto.
@@ -910,14 +942,15 @@ Definition allfreed (s : st) : Prop := forall c, (c < length (cs s))%nat -> c_fr
 
 (* one iteration after every handle has been closed frees every context *)
 Lemma round_AC s res beh cnt :
-  R [] [] None s -> AC s -> (forall k, Forall noinit (beh k)) ->
+  R [] [] None s -> AC s -> (forall k, Forall noinit (beh k)) -> ut s = [] ->
   let s2 := fst (fst (iteration true (fst (release s res)) beh cnt)) in
-  R [] [] None s2 /\ AC s2 /\ allfreed s2 /\ inflight s2 = [] /\ done s2 = [].
+  R [] [] None s2 /\ AC s2 /\ allfreed s2 /\ inflight s2 = [] /\ done s2 = [] /\ ut s2 = [].
 Proof.
-  intros H A B.
+  intros H A B U.
   pose proof (R_release s res H) as H1.
   assert (A1 : AC (fst (release s res))) by exact A.
   assert (I1 : inflight (fst (release s res)) = []) by reflexivity.
+  assert (U1 : ut (fst (release s res)) = []) by exact U.
   set (s1 := fst (release s res)) in *. clearbody s1.
   unfold iteration. cbv zeta.
   set (s0 := set_now s1 (clock s1)).
@@ -970,10 +1003,12 @@ Proof.
   { destruct C1 as [S X]. split; [eapply SI_same; [| |exact S]; reflexivity|].
     eapply R4_same; [| | | | |exact X]; reflexivity. }
   assert (Ae : AC se) by exact Ad.
-  rewrite (run_timers_none se (no_armed se (proj1 He) Ae)).
+  destruct F1 as (_ & _ & _ & _ & Fi1 & Fd1 & Fu1). destruct F2 as (_ & _ & _ & _ & Fi2 & Fd2 & Fu2).
+  assert (Ue : ut se = []).
+  { change (ut se) with (ut sd). rewrite Fu2. change (ut sc) with (ut sb). rewrite Fu1. exact U1. }
+  rewrite (run_timers_none true beh se n2 (no_armed se (proj1 He) Ae) Ue). cbn [fst].
   split; [exact He|]. split; [exact Ae|]. split; [exact AF|].
-  destruct F1 as (_ & _ & _ & _ & Fi1 & Fd1). destruct F2 as (_ & _ & _ & _ & Fi2 & Fd2).
-  split.
+  split; [|split; [|exact Ue]].
   - change (inflight se) with (inflight sd). rewrite Fi2. change (inflight sc) with (inflight sb).
     rewrite Fi1. exact I1.
   - change (done se) with (done sd). rewrite Fd2. change (done sc) with (done sb). rewrite Fd1. reflexivity.
@@ -1018,10 +1053,10 @@ Qed.
 (* the second iteration: only close callbacks are left, nothing becomes pending again *)
 Lemma round2_AC s res beh cnt :
   R [] [] None s -> AC s -> allfreed s -> inflight s = [] -> done s = [] ->
-  (forall k, Forall noinit (beh k)) ->
+  (forall k, Forall noinit (beh k)) -> ut s = [] ->
   closingq (fst (fst (iteration true (fst (release s res)) beh cnt))) = [].
 Proof.
-  intros H A AF Ei Ed B.
+  intros H A AF Ei Ed B U.
   pose proof (allfreed_allempty s H AF) as E.
   unfold release. rewrite Ei, Ed. cbn [fst map app].
   unfold iteration. cbv zeta. cbn [done set_done set_inflight set_now work_done].
@@ -1051,7 +1086,10 @@ Proof.
   set (se := set_now sd (clock sd)).
   assert (He : SI se) by (destruct C1 as [S _]; eapply SI_same; [| |exact S]; reflexivity).
   assert (Ae : AC se) by (eapply AC_Fr; eauto).
-  rewrite (run_timers_none se (no_armed se He Ae)). change (closingq se) with (closingq sd).
+  assert (Ue : ut se = []).
+  { destruct F2 as (_ & _ & _ & _ & _ & _ & Fu). change (ut se) with (ut sd). rewrite Fu. exact U. }
+  rewrite (run_timers_none true beh se n2 (no_armed se He Ae) Ue). cbn [fst].
+  change (closingq se) with (closingq sd).
   rewrite Q. reflexivity.
 Qed.
 
@@ -1086,22 +1124,22 @@ Qed.
 
 Theorem drain_closes_clean :
   forall fuel s res beh cnt,
-  R [] [] None s -> AC s -> (forall k, Forall noinit (beh k)) ->
+  R [] [] None s -> AC s -> (forall k, Forall noinit (beh k)) -> ut s = [] ->
   let s' := fst (fst (drain true (S (S fuel)) s res beh cnt)) in
   loop_close s' = 0 /\ live_ctx s' = 0%nat.
 Proof.
-  intros fuel s res beh cnt H A B.
-  pose proof (round_AC s res beh cnt H A B) as X. cbv zeta in X.
+  intros fuel s res beh cnt H A B U.
+  pose proof (round_AC s res beh cnt H A B U) as X. cbv zeta in X.
   cbn [drain].
   destruct (release s res) as [s1 e1] eqn:Er. cbn [fst] in X.
   destruct (iteration true s1 beh cnt) as [[s2 e2] n2] eqn:Ei. cbn [fst] in X.
-  destruct X as (H2 & A2 & AF2 & I2 & D2).
+  destruct X as (H2 & A2 & AF2 & I2 & D2 & U2).
   destruct (alive s2) eqn:Al.
-  - pose proof (round_AC s2 res beh n2 H2 A2 B) as Y. cbv zeta in Y.
-    pose proof (round2_AC s2 res beh n2 H2 A2 AF2 I2 D2 B) as Q.
+  - pose proof (round_AC s2 res beh n2 H2 A2 B U2) as Y. cbv zeta in Y.
+    pose proof (round2_AC s2 res beh n2 H2 A2 AF2 I2 D2 B U2) as Q.
     destruct (release s2 res) as [s3 e3] eqn:Er2. cbn [fst] in Y, Q.
     destruct (iteration true s3 beh n2) as [[s4 e4] n4] eqn:Ei2. cbn [fst] in Y, Q.
-    destruct Y as (H4 & A4 & AF4 & I4 & D4).
+    destruct Y as (H4 & A4 & AF4 & I4 & D4 & U4).
     destruct (finished s4 H4 A4 AF4 I4 D4 Q) as (Na & LC & LV).
     rewrite Na. cbn [fst]. auto.
   - cbn [fst].
@@ -1261,10 +1299,13 @@ Proof.
     pose proof (IH s1 beh n1 X) as Y. destruct (run_closing q s1 beh n1) as [[s2 e2] n2]. exact Y.
 Qed.
 
-Lemma hs_run_timers s : hs (run_timers s) = hs s.
+Lemma CI_run_timers fx beh s cnt : CI s -> CI (fst (fst (run_timers fx beh s cnt))).
 Proof.
-  unfold run_timers. generalize (due_from 0 (cs s) (now s)). intros l. revert s.
-  induction l as [|k l IH]; intros s; cbn [fold_left]; auto. rewrite IH. reflexivity.
+  apply (run_timers_inv CI).
+  - intros s0 c H. exact H.
+  - intros s0 l H. exact H.
+  - intros s0 c H. unfold timer_fire. destruct (fx && _); exact H.
+  - intros s0 os H. apply CI_apis; auto.
 Qed.
 
 Lemma CI_iteration fx s beh cnt : CI s -> CI (fst (fst (iteration fx s beh cnt))).
@@ -1275,7 +1316,8 @@ Proof.
   destruct (work_done fx (done s0) (set_done s0 []) beh cnt) as [[s1 e1] n1]. cbn [fst] in X.
   pose proof (CI_run_closing (closingq s1) (set_closingq s1 []) beh n1 X) as Y.
   destruct (run_closing (closingq s1) (set_closingq s1 []) beh n1) as [[s2 e2] n2]. cbn [fst] in *.
-  eapply CI_same; [apply hs_run_timers|]. exact Y.
+  pose proof (CI_run_timers fx beh (set_now s2 (clock s2)) n2 Y) as Z.
+  destruct (run_timers fx beh (set_now s2 (clock s2)) n2) as [[s3 e3] n3]. exact Z.
 Qed.
 
 Lemma CI_drain fx fuel : forall s res beh cnt, CI s -> CI (fst (fst (drain fx fuel s res beh cnt))).
@@ -1307,8 +1349,10 @@ Proof.
   - pose proof (CI_iteration fx s beh cnt H) as X.
     destruct (iteration fx s beh cnt) as [[s1 e1] n1]. cbn [fst] in X.
     pose proof (IH s1 beh n1 X) as Y. destruct (run fx s1 os beh n1); exact Y.
-  - pose proof (CI_drain fx drain_fuel s res beh cnt H) as X.
-    destruct (drain fx drain_fuel s res beh cnt) as [[s1 e1] n1]. cbn [fst] in X.
+  - apply IH. exact H.
+  - assert (H' : CI (set_ut s [])) by exact H.
+    pose proof (CI_drain fx drain_fuel _ res beh cnt H') as X.
+    destruct (drain fx drain_fuel (set_ut s []) res beh cnt) as [[s1 e1] n1]. cbn [fst] in X.
     pose proof (IH s1 beh n1 X) as Y. destruct (run fx s1 os beh n1); exact Y.
 Qed.
 
@@ -1357,17 +1401,46 @@ Qed.
 (* ------------------------------------------------------------------ *)
 (* C17_close_waits_for_stat / C17_ctx_all_freed / C17_never_blocks_loop_close *)
 (* ------------------------------------------------------------------ *)
+Lemma ut_do_stop s h : ut (do_stop s h) = ut s.
+Proof.
+  unfold do_stop. destruct (negb (h_active (geth s h))); auto.
+  destruct (h_chain (geth s h)); auto. destruct (timer_active _); reflexivity.
+Qed.
+
+Lemma ut_api s o : ut (fst (api s o)) = ut s.
+Proof.
+  destruct o; cbn [api fst]; auto.
+  - destruct (valid s h && negb (h_closing (geth s h))); auto.
+    unfold do_start. destruct (h_active (geth s h)); auto.
+    destruct fail as [|[|[|[|f]]]]; reflexivity.
+  - destruct (valid s h && negb (h_closed (geth s h))); cbn [fst]; auto. apply ut_do_stop.
+  - destruct (valid s h && negb (h_closing (geth s h))); cbn [fst]; auto.
+    unfold do_close. set (s1 := do_stop _ h).
+    assert (E : ut s1 = ut s) by (unfold s1; rewrite ut_do_stop; reflexivity).
+    destruct (h_chain (geth s1 h)); exact E.
+Qed.
+
+Lemma ut_apis os : forall s, ut (fst (apis s os)) = ut s.
+Proof.
+  induction os as [|o os IH]; intros s; cbn [apis]; auto.
+  pose proof (ut_api s o) as X. destruct (api s o) as [s1 e1]. cbn [fst] in X.
+  pose proof (IH s1) as Y. destruct (apis s1 os) as [s2 e2]. cbn [fst] in *. congruence.
+Qed.
+
 Theorem closes_clean_current : closes_clean_stmt true.
 Proof.
   intros t0 os beh res B.
-  set (s := fst (run true (init t0) os beh 0)).
-  assert (HR : R [] [] None s) by (apply R_run; apply R_init).
-  assert (HC : CI s) by (apply CI_run; apply CI_init).
+  set (s := set_ut (fst (run true (init t0) os beh 0)) []).
+  assert (HR0 : R [] [] None (fst (run true (init t0) os beh 0))) by (apply R_run; apply R_init).
+  assert (HR : R [] [] None s).
+  { destruct HR0 as [S H]. split; [eapply SI_same; [| |exact S]; reflexivity|].
+    eapply R4_same; [| | | | |exact H]; reflexivity. }
+  assert (HC : CI s) by (apply (CI_run true os (init t0) beh 0%nat); apply CI_init).
   assert (HR' : R [] [] None (close_all s)) by (apply R_apis; exact HR).
   assert (HA : AC (close_all s)) by (apply close_all_AC; exact HC).
   assert (B' : forall k, Forall noinit (beh k)) by exact B.
-  pose proof (drain_closes_clean 62 (close_all s) res beh 0%nat HR' HA B') as X.
-  exact X.
+  assert (U : ut (close_all s) = []) by (unfold close_all; rewrite ut_apis; reflexivity).
+  exact (drain_closes_clean 62 (close_all s) res beh 0%nat HR' HA B' U).
 Qed.
 
 (* every reachable state of the current code satisfies R: every context that is not freed is
